@@ -38,7 +38,7 @@ pub enum W {
     StoreShared = 12,
     Verify = 13,
 }
-const ALLW: [W; NOPS] = [
+pub(crate) const ALLW: [W; NOPS] = [
     W::Load, W::LoadDrop, W::LoadFull, W::DropGuard, W::GuardInto, W::DropOwned, W::Store, W::Swap, W::Cas, W::Rcu, W::Send,
     W::Recv, W::StoreShared, W::Verify,
 ];
@@ -128,9 +128,9 @@ pub fn profile(name: &str) -> Profile {
     p
 }
 
-struct Held<V: Val, S: StratExt<V>> {
-    g: Guard<V, S>,
-    id: u64,
+pub(crate) struct Held<V: Val, S: StratExt<V>> {
+    pub(crate) g: Guard<V, S>,
+    pub(crate) id: u64,
 }
 
 fn hold<V: Val, S: StratExt<V>>(g: Guard<V, S>) -> Held<V, S> {
@@ -147,24 +147,24 @@ fn verify<V: Val, S: StratExt<V>>(h: &Held<V, S>, when: &str) {
     }
 }
 
-fn release<V: Val, S: StratExt<V>>(h: Held<V, S>) -> Guard<V, S> {
+pub(crate) fn release<V: Val, S: StratExt<V>>(h: Held<V, S>) -> Guard<V, S> {
     verify(&h, "at drop");
     h.g.note_guard(-1);
     h.g
 }
 
-struct Own<V: Val> {
-    v: V,
-    id: u64,
+pub(crate) struct Own<V: Val> {
+    pub(crate) v: V,
+    pub(crate) id: u64,
 }
 
-fn own<V: Val>(v: V) -> Own<V> {
+pub(crate) fn own<V: Val>(v: V) -> Own<V> {
     v.note_owner(1);
     let id = v.vid();
     Own { v, id }
 }
 
-fn disown<V: Val>(o: Own<V>) -> V {
+pub(crate) fn disown<V: Val>(o: Own<V>) -> V {
     let now = o.v.vid();
     if now != o.id {
         report("C10", "handle-identity-changed", format!("owned handle on value {:x} denotes {:x}", o.id, now));
@@ -174,46 +174,46 @@ fn disown<V: Val>(o: Own<V>) -> V {
 }
 
 pub struct Shared<V: Val, S: StratExt<V>> {
-    clock: AtomicU64,
-    mailbox: Mutex<Vec<Held<V, S>>>,
-    b1: HBarrier,
-    b2: HBarrier,
-    results: Mutex<Vec<WorkerResult>>,
-    fin: Mutex<Vec<Option<u64>>>,
-    q1_done: AtomicBool,
-    profile: Profile,
-    exec_no: u64,
-    step_budget: u32,
+    pub(crate) clock: AtomicU64,
+    pub(crate) mailbox: Mutex<Vec<Held<V, S>>>,
+    pub(crate) b1: HBarrier,
+    pub(crate) b2: HBarrier,
+    pub(crate) results: Mutex<Vec<WorkerResult>>,
+    pub(crate) fin: Mutex<Vec<Option<u64>>>,
+    pub(crate) q1_done: AtomicBool,
+    pub(crate) profile: Profile,
+    pub(crate) exec_no: u64,
+    pub(crate) step_budget: u32,
 }
 
 #[derive(Default)]
 pub struct WorkerResult {
-    t: usize,
-    ops: Vec<Op>,
-    addr_of: Vec<(u64, u64)>,
-    discarded: Vec<u64>,
-    paths: HashMap<&'static str, u64>,
-    max_load_steps: u32,
-    max_write_steps: u32,
-    completed: bool,
+    pub(crate) t: usize,
+    pub(crate) ops: Vec<Op>,
+    pub(crate) addr_of: Vec<(u64, u64)>,
+    pub(crate) discarded: Vec<u64>,
+    pub(crate) paths: HashMap<&'static str, u64>,
+    pub(crate) max_load_steps: u32,
+    pub(crate) max_write_steps: u32,
+    pub(crate) completed: bool,
 }
 
-struct Worker<V: Val, S: StratExt<V>> {
-    t: usize,
-    rng: Rng,
-    conts: Vec<Cont<V, S>>,
-    sh: Arc<Shared<V, S>>,
-    guards: Vec<(usize, Held<V, S>)>,
-    owned: Vec<Own<V>>,
-    seen_addrs: Vec<u64>,
-    next_id: u64,
-    res: RefCell<WorkerResult>,
+pub(crate) struct Worker<V: Val, S: StratExt<V>> {
+    pub(crate) t: usize,
+    pub(crate) rng: Rng,
+    pub(crate) conts: Vec<Cont<V, S>>,
+    pub(crate) sh: Arc<Shared<V, S>>,
+    pub(crate) guards: Vec<(usize, Held<V, S>)>,
+    pub(crate) owned: Vec<Own<V>>,
+    pub(crate) seen_addrs: Vec<u64>,
+    pub(crate) next_id: u64,
+    pub(crate) res: RefCell<WorkerResult>,
     /// path flags of the loads made by the calls since the last recorded operation
-    last_path: std::cell::Cell<u8>,
+    pub(crate) last_path: std::cell::Cell<u8>,
 }
 
 impl<V: Val, S: StratExt<V>> Worker<V, S> {
-    fn stamp(&self) -> u64 {
+    pub(crate) fn stamp(&self) -> u64 {
         self.sh.clock.fetch_add(1, SeqCst)
     }
 
@@ -232,7 +232,7 @@ impl<V: Val, S: StratExt<V>> Worker<V, S> {
     }
 
     /// Wrap a call into the crate: step counting, path markers.
-    fn call<R>(&self, is_load: bool, f: impl FnOnce() -> R) -> R {
+    pub(crate) fn call<R>(&self, is_load: bool, f: impl FnOnce() -> R) -> R {
         runner::payall_reset();
         sched::take_marks();
         runner::set_in_call(true);
@@ -320,7 +320,7 @@ impl<V: Val, S: StratExt<V>> Worker<V, S> {
         }
     }
 
-    fn do_op(&mut self, w: W) {
+    pub(crate) fn do_op(&mut self, w: W) {
         match w {
             W::Load | W::LoadDrop => {
                 let c = self.pick_cont();
@@ -627,7 +627,7 @@ fn path_flags(marks: u128) -> u8 {
 }
 
 /// Conservation law at a quiescent point with guards alive (ledger rule 3).
-fn quiescent_check<V: Val, S: StratExt<V>>(conts: &[Cont<V, S>], fin: &mut Vec<Option<u64>>, when: &str) -> usize {
+pub(crate) fn quiescent_check<V: Val, S: StratExt<V>>(conts: &[Cont<V, S>], fin: &mut Vec<Option<u64>>, when: &str) -> usize {
     let mut stored: HashMap<usize, usize> = HashMap::new();
     for c in conts.iter() {
         let g = c.load();
@@ -681,6 +681,75 @@ fn quiescent_check<V: Val, S: StratExt<V>>(conts: &[Cont<V, S>], fin: &mut Vec<O
         }
     }
     checked
+}
+
+/// End of a long-lived worker: park with guards and handles still held (the last arriver checks
+/// the conservation law), then drop everything in a random order, racing with the other threads
+/// and with the consumption of the containers.
+pub(crate) fn end_phase<V: Val, S: StratExt<V>>(mut w: Worker<V, S>, sh: &Arc<Shared<V, S>>) {
+    // Phase end: everybody parks with guards and handles still held; the last arriver
+    // checks the conservation law.
+    {
+        let conts = &w.conts;
+        let sh3 = sh.clone();
+        sh.b1.wait(|| {
+            let mut fin = Vec::new();
+            let n = quiescent_check(conts, &mut fin, "all threads parked, guards held");
+            runner::count("q1.objects_checked", n as u64);
+            *sh3.fin.lock().unwrap() = fin;
+            sh3.q1_done.store(true, SeqCst);
+        });
+    }
+    sh.b2.wait(|| {});
+    // Drop everything in a random order, racing with the other threads and with the drop
+    // of the containers (the last holder consumes the container).
+    let mut order: Vec<u8> = Vec::new();
+    order.extend(std::iter::repeat(0).take(w.guards.len()));
+    order.extend(std::iter::repeat(1).take(w.owned.len()));
+    order.extend(std::iter::repeat(2).take(w.conts.len()));
+    for i in (1..order.len()).rev() {
+        let j = w.rng.below(i as u64 + 1) as usize;
+        order.swap(i, j);
+    }
+    for what in order {
+        match what {
+            0 => {
+                let (_, h) = w.guards.pop().unwrap();
+                let g = release(h);
+                w.call(false, || drop(g));
+            }
+            1 => {
+                let o = w.owned.pop().unwrap();
+                drop(disown(o));
+            }
+            _ => {
+                let c = w.conts.pop().unwrap();
+                let into = w.rng.chance(1, 2);
+                match Arc::try_unwrap(c) {
+                    Ok(cont) => {
+                        if into {
+                            let v = w.call(false, || cont.into_inner());
+                            let o = own(v);
+                            sched::step(hs::OP_GAP);
+                            drop(disown(o));
+                        } else {
+                            w.call(false, || drop(cont));
+                        }
+                    }
+                    Err(arc) => w.call(false, || drop(arc)),
+                }
+            }
+        }
+    }
+    // leftovers in the mailbox are dropped by whoever comes last
+    let left: Vec<Held<V, S>> = std::mem::take(&mut *sh.mailbox.lock().unwrap());
+    for h in left {
+        let g = release(h);
+        w.call(false, || drop(g));
+    }
+    let mut res = w.res.into_inner();
+    res.completed = true;
+    sh.results.lock().unwrap().push(res);
 }
 
 #[derive(Clone, Debug)]
@@ -787,69 +856,7 @@ where
                 w.do_op(op);
                 sched::step(hs::OP_GAP);
             }
-            // Phase end: everybody parks with guards and handles still held; the last arriver
-            // checks the conservation law.
-            {
-                let conts = &w.conts;
-                let sh3 = sh2.clone();
-                sh2.b1.wait(|| {
-                    let mut fin = Vec::new();
-                    let n = quiescent_check(conts, &mut fin, "all threads parked, guards held");
-                    runner::count("q1.objects_checked", n as u64);
-                    *sh3.fin.lock().unwrap() = fin;
-                    sh3.q1_done.store(true, SeqCst);
-                });
-            }
-            sh2.b2.wait(|| {});
-            // Drop everything in a random order, racing with the other threads and with the drop
-            // of the containers (the last holder consumes the container).
-            let mut order: Vec<u8> = Vec::new();
-            order.extend(std::iter::repeat(0).take(w.guards.len()));
-            order.extend(std::iter::repeat(1).take(w.owned.len()));
-            order.extend(std::iter::repeat(2).take(w.conts.len()));
-            for i in (1..order.len()).rev() {
-                let j = w.rng.below(i as u64 + 1) as usize;
-                order.swap(i, j);
-            }
-            for what in order {
-                match what {
-                    0 => {
-                        let (_, h) = w.guards.pop().unwrap();
-                        let g = release(h);
-                        w.call(false, || drop(g));
-                    }
-                    1 => {
-                        let o = w.owned.pop().unwrap();
-                        drop(disown(o));
-                    }
-                    _ => {
-                        let c = w.conts.pop().unwrap();
-                        let into = w.rng.chance(1, 2);
-                        match Arc::try_unwrap(c) {
-                            Ok(cont) => {
-                                if into {
-                                    let v = w.call(false, || cont.into_inner());
-                                    let o = own(v);
-                                    sched::step(hs::OP_GAP);
-                                    drop(disown(o));
-                                } else {
-                                    w.call(false, || drop(cont));
-                                }
-                            }
-                            Err(arc) => w.call(false, || drop(arc)),
-                        }
-                    }
-                }
-            }
-            // leftovers in the mailbox are dropped by whoever comes last
-            let left: Vec<Held<V, S>> = std::mem::take(&mut *sh2.mailbox.lock().unwrap());
-            for h in left {
-                let g = release(h);
-                w.call(false, || drop(g));
-            }
-            let mut res = w.res.into_inner();
-            res.completed = true;
-            sh2.results.lock().unwrap().push(res);
+            end_phase(w, &sh2);
         }));
     }
     drop(conts);
@@ -875,6 +882,28 @@ where
         (0, 0)
     };
 
+    analyze::<V, S>(p, &desc, &sh, all_ok, init_ids, addr_of, nt, nc, cfg.mode, cfg.record, viol_before, trace_hash, steps)
+}
+
+
+/// After all threads were joined: structural invariants, leaks, histories.
+#[allow(clippy::too_many_arguments)]
+pub(crate) fn analyze<V: Val, S: StratExt<V>>(
+    p: &Profile,
+    desc: &Value,
+    sh: &Arc<Shared<V, S>>,
+    all_ok: bool,
+    init_ids: Vec<u64>,
+    mut addr_of: HashMap<u64, u64>,
+    nt: usize,
+    nc: usize,
+    mode: Mode,
+    record: bool,
+    viol_before: usize,
+    trace_hash: u64,
+    steps: u64,
+) -> ExecOut {
+    let desc = desc.clone();
     // ---- after the execution: Q2 and histories
     let results = std::mem::take(&mut *sh.results.lock().unwrap());
     let mut nops = 0;
@@ -1007,7 +1036,7 @@ where
             report("C04", "chain", format!("container {}: {}", c, e));
         }
     }
-    if cfg.mode != Mode::Token {
+    if mode != Mode::Token {
         out.trace_hash = hist_hash;
     }
     if runner::with(|r| r.samples.len()) < 3 && nops > 0 {
@@ -1022,7 +1051,7 @@ where
         let hist: Vec<String> = sorted.iter().map(|o| o.brief()).collect();
         let mut d = desc.clone();
         d["history"] = json!(hist);
-        if cfg.record {
+        if record {
             let inn = unsafe { sched::inner() };
             let tr: Vec<String> = inn.trace.iter().map(|(t, s)| format!("{}:{}", t, sched::site_name(*s))).collect();
             d["trace"] = json!(tr);
